@@ -10,7 +10,8 @@ induction (`updates_inv`, `updates_from_empty`), and then instantiated with the 
 arithmetic through `hashPos_lt` (`imap_update_inv`).
 
 Termination of the collision loop is a hypothesis – `update … = .ok m'` – not a theorem: it is false in
-general (`collision_loop_may_diverge`; on the real code: block size 7, finding F11 of DESIGN.md). -/
+general (`collision_loop_may_diverge`; on the real code: a full block, or – practically – block size 7, where two
+colliding keys are only separated at salt 90 001; observation F11 of DESIGN.md). -/
 namespace Viv.Props.C03
 open Viv.IndexMap
 
@@ -267,9 +268,10 @@ theorem get_stable (h : Key → Salt → Nat) (fuel : Nat) (m : List Entry) (bat
 
 /-! ### termination is a hypothesis, and has to be -/
 
-/-- If the hash ignores the salt on the colliding keys (on the real code: the salt shift
-`ncols·111111·salt` vanishes modulo the block size, e.g. size 7) and one of them cannot be placed, the
-collision loop never finishes: for EVERY fuel the model runs out of fuel. -/
+/-- If the hash ignores the salt on a colliding key (on the real code: the salt shift
+`ncols · _spread(salt)` vanishes modulo the block size – e.g. size 7, for every salt below 90 001, the first one for
+which `_spread` wraps 10^10; or the block is full) and the key's position is taken, the collision loop never
+finishes: for EVERY fuel the model runs out of fuel. -/
 theorem collision_loop_may_diverge (h : Key → Salt → Nat) (k : Key) (p : Nat)
     (hblind : ∀ s, h k (.int s) = p) :
     ∀ (fuel salt : Nat) (cur : List KV), p ∈ valsOf cur → k ∉ keysOf cur → (valsOf cur).Nodup →
